@@ -1,6 +1,7 @@
 package world
 
 import (
+	"bytes"
 	"crypto/sha256"
 	"encoding/binary"
 	"encoding/hex"
@@ -988,4 +989,141 @@ func (w *W) ParsePayload(memo string) (p *core.Payload, err error) {
 		return p, err
 	}
 	return p, nil
+}
+
+// Transcript runs one operation on the application as wired (no instrumentation), committing what the
+// chain would commit, and returns everything a node exposes about it: acknowledgement bytes, panic
+// text, ABCI events with their attributes in order, message results, query results.  Event text that
+// does not come from the orbiter is cleared of Go pointer values ibc-go prints (ptrRe).
+func (w *W) Transcript(ctx sdk.Context, op Op) string {
+	var b strings.Builder
+	events := func(c sdk.Context) {
+		for _, e := range c.EventManager().Events() {
+			line := e.Type
+			for _, a := range e.Attributes {
+				line += " " + a.Key + "=" + a.Value
+			}
+			if !strings.HasPrefix(e.Type, "noble.orbiter") {
+				line = ptrRe.ReplaceAllString(line, "{ptr}")
+			}
+			b.WriteString("  event " + line + "\n")
+		}
+	}
+	switch op.Kind {
+	case "recv":
+		if op.Callback != "" {
+			return "callback (not replayed)\n"
+		}
+		cctx, write := ctx.CacheContext()
+		cctx = cctx.WithEventManager(sdk.NewEventManager())
+		var ack ibcexported.Acknowledgement
+		pan := ""
+		func() {
+			defer func() {
+				if r := recover(); r != nil {
+					pan = fmt.Sprint(r)
+				}
+			}()
+			ack = w.Wired.OnRecvPacket(cctx, w.channelPacket(op.Pkt), sdk.AccAddress(make([]byte, 20)))
+		}()
+		if pan != "" {
+			if !IsOrbiterFlow(op.Pkt) {
+				pan = "(outside the orbiter)"
+			}
+			fmt.Fprintf(&b, "recv panic %s\n", pan)
+			return b.String()
+		}
+		fmt.Fprintf(&b, "recv ack %x success=%v\n", ack.Acknowledgement(), ack.Success())
+		events(cctx)
+		if ack.Success() {
+			write()
+		}
+	case "msg":
+		m := op.Msg.SDK()
+		cctx, write := ctx.CacheContext()
+		cctx = cctx.WithEventManager(sdk.NewEventManager())
+		func() {
+			defer func() {
+				if r := recover(); r != nil {
+					fmt.Fprintf(&b, "msg panic %v\n", r)
+				}
+			}()
+			h := w.S.App.MsgServiceRouter().Handler(m)
+			if h == nil {
+				b.WriteString("msg no handler\n")
+				return
+			}
+			res, err := h(cctx, m)
+			if err != nil {
+				fmt.Fprintf(&b, "msg error %s\n", err.Error())
+				return
+			}
+			fmt.Fprintf(&b, "msg ok data=%x\n", res.Data)
+			events(cctx)
+			write()
+		}()
+	case "deposit":
+		coins := sdk.NewCoins(sdk.NewCoin(op.Denom, math.NewIntFromBigInt(op.Amount)))
+		if err := w.S.MintUnchecked(ctx, op.To, coins); err != nil {
+			b.WriteString("deposit error\n")
+		} else {
+			b.WriteString("deposit ok\n")
+		}
+	case "query":
+		v, failed := w.query(ctx, op.Q)
+		fmt.Fprintf(&b, "query failed=%v %s\n", failed, v.Coq())
+	}
+	return b.String()
+}
+
+// FinalTranscript is the state a node would export: the orbiter's genesis JSON and a digest of every store.
+func (w *W) FinalTranscript(ctx sdk.Context) string {
+	g := w.S.App.OrbiterKeeper.ExportGenesis(ctx)
+	bz, err := w.S.App.OrbiterKeeper.Codec().MarshalJSON(g)
+	if err != nil {
+		bz = []byte("export error: " + err.Error())
+	}
+	return "export " + string(bz) + "\nstores " + w.DeltaDigest(ctx) + "\n"
+}
+
+// DeltaDigest hashes every key of every store whose value differs from the booted application's
+// (the boot state itself holds per-process random material: validator keys).
+func (w *W) DeltaDigest(ctx sdk.Context) string {
+	h := sha256.New()
+	keys := w.S.App.GetStoreKeys()
+	sort.Slice(keys, func(i, j int) bool { return keys[i].Name() < keys[j].Name() })
+	put := func(tag string, k, v []byte) {
+		var l [8]byte
+		h.Write([]byte(tag))
+		binary.BigEndian.PutUint64(l[:], uint64(len(k)))
+		h.Write(l[:])
+		h.Write(k)
+		binary.BigEndian.PutUint64(l[:], uint64(len(v)))
+		h.Write(l[:])
+		h.Write(v)
+	}
+	for _, k := range keys {
+		kv, ok := k.(*storetypes.KVStoreKey)
+		if !ok {
+			continue
+		}
+		h.Write([]byte("store:" + kv.Name()))
+		base := w.S.Ctx.KVStore(kv)
+		cur := ctx.KVStore(kv)
+		it := cur.Iterator(nil, nil)
+		for ; it.Valid(); it.Next() {
+			if !bytes.Equal(base.Get(it.Key()), it.Value()) {
+				put("set", it.Key(), it.Value())
+			}
+		}
+		it.Close()
+		it = base.Iterator(nil, nil)
+		for ; it.Valid(); it.Next() {
+			if !cur.Has(it.Key()) {
+				put("del", it.Key(), nil)
+			}
+		}
+		it.Close()
+	}
+	return hex.EncodeToString(h.Sum(nil))
 }
